@@ -15,6 +15,7 @@ Record TR (X : nat → string → Prop) (cfg : config) (s : sstate) (t : tstate)
   tr_pending : t_pending t = [];
   tr_holds : HR (st_locks s) (st_sessions s) (st_timers s) (st_shut s = false) [] (t_holds t);
   tr_waiters : Forall2 WR (st_waiters s) (t_waiters t);
+  tr_keys : KI s t;
   tr_fail : fails_ok X t
 }.
 
@@ -22,12 +23,17 @@ Record TR (X : nat → string → Prop) (cfg : config) (s : sstate) (t : tstate)
     - after EShutdown the server process only answers probes until it is restarted: the harness issues
       nothing but EProbe / ERestart (the lease timers are stopped by the shutdown, while the oracle — like
       the property text — keeps counting leases, so time must not pass for the comparison either);
+    - the id the server gives a new connection is fresh (uuid.NewString): it was not drawn before (ghost
+      [st_used]), it is not the id of a session of the state (this includes the sessions restored from the state
+      file by a restart) and no call is parked under it. The oracle monitors this on the real traces
+      ("FRESH:session-id-reused"); [ev_ok] states the same for keys ("FRESH:key-reused");
     - the keys of holds are UUIDs, in particular not the empty string, which the admin Unlock by name
       treats as "no such lock": stated on the state in which the admin command runs (no session's last hold
       of that name has the empty key). *)
 Definition hist_ok_ev (s : sstate) (ev : event) : Prop :=
   (st_shut s = true → ev = EProbe ∨ ∃ o, ev = ERestart o) ∧
   match ev with
+  | EConnect sid => sid ∉ st_used s ∧ st_sessions s !! sid = None ∧ sid ∉ w_sid <$> st_waiters s
   | EIpcUnlock name None => [] ∉ ipc_candidates name s
   | _ => True
   end.
@@ -63,23 +69,24 @@ Section tr.
 
   Lemma TR_LR s t : Inv cfg s → st_shut s = false → TR X cfg s t → LR s [] t.
   Proof.
-    intros HI Hsh HT. split; [|apply (tr_waiters _ _ _ _ HT)]. rewrite (TR_alive _ _ HI Hsh HT).
+    intros HI Hsh HT. split; [|split; [apply (tr_waiters _ _ _ _ HT)|apply (tr_keys _ _ _ _ HT)]]. rewrite (TR_alive _ _ HI Hsh HT).
     eapply HR_P; [|apply (tr_holds _ _ _ _ HT)]. done.
   Qed.
 
   Lemma LR_TR s t : LR s [] t → ef (st_now s) (t_holds t) = t_holds t → t_now t = st_now s → t_pending t = [] →
     fails_ok X t → TR X cfg s t.
-  Proof. intros [HH HW] Ea En Ep HX. split; try done. rewrite <- Ea. eapply HR_P; [|exact HH]. done. Qed.
+  Proof. intros (HH & HW & HK) Ea En Ep HX. split; try done. rewrite <- Ea. eapply HR_P; [|exact HH]. done. Qed.
 
   (** the tracker after the completions in sorted order, from the tracker after them in emission order *)
   Lemma TR_transfer s t1 t2 : TR X cfg s t1 → tle t1 t2 → TR X cfg s t2.
   Proof.
-    intros [H1 H2 H3 H4 H5] (En & Ep & Em & Ew & Hh & Hf). split.
+    intros [H1 H2 H3 H4 H5 H6] (En & Ep & Em & Es & Ek & Ew & Hh & Hf). split.
     - by rewrite En.
     - by rewrite Ep.
     - by eapply HR_perm.
     - by rewrite Ew.
-    - intros j tag Hx. by apply H5, Hf.
+    - unfold KI in *. by rewrite Es, Ek.
+    - intros j tag Hx. by apply H6, Hf.
   Qed.
 
   Lemma ef_done_list i cause cs t a : (∀ c, c ∈ cs → c_at c = a) → ef a (t_holds t) = t_holds t →
